@@ -398,7 +398,7 @@ func init() {
 		p.Quick = append(p.Quick, HRun{Entry: "HarnessC10MatrixAlias", Bound: "matrices built from 7 expressions of shared types in 6 shapes (include elements before / after literal ones, whole matrix, whole include, row), every job order: no write to package-level tables, a later job unaffected", Require: []string{"linted"}})
 		p.Quick = append(p.Quick, HRun{Entry: "HarnessC10Races", Args: []int64{2, 3}, Bound: "LintFiles on 2 files x 3 run steps (shellcheck + pyflakes, one issue per script), 2 CPUs: every pair of accesses to one memory cell by two goroutines, one a write, without a common mutex, is ordered by the synchronisation in every schedule (solver query per pair on the schedule model)", Require: []string{"linted", "race-analysis-done"}})
 		for _, lens := range [][2]int64{{1, 1}, {1, 3}, {2, 2}, {2, 4}, {2, 5}, {3, 2}, {3, 3}, {3, 5}, {3, 6}, {4, 6}} {
-			p.Quick = append(p.Quick, HRun{Entry: "HarnessC10Knows", Args: []int64{lens[0], lens[1]}, Bound: "all roots / paths of these lengths over {/,a,b,.}"})
+			p.Quick = append(p.Quick, HRun{Entry: "HarnessC10Knows", Args: []int64{lens[0], lens[1]}, Bound: "all roots / paths of these lengths over {/,a,b,A,.}"})
 		}
 		p.Thorough = append(append([]HRun{}, p.Quick...),
 			HRun{Entry: "HarnessC10Echo", Args: []int64{2, 0}, Bound: "2 arbitrary bytes at every scalar", Require: []string{"linted"}},
